@@ -152,6 +152,9 @@ class Gen:
             for _ in range(r.choice([0, 0, 1, 2, 3])):
                 cfg.append(f"eintr={r.randrange(1, 20)}")
             if r.random() < 0.15: cfg.append("noeventfd2")
+            if fam == "lifecycle":
+                if r.random() < 0.2: cfg.append("eventfd-emfile")
+                elif r.random() < 0.2: cfg.append("noeventfd")
         L.append("cfg " + " ".join(cfg))
         if fam == "storm":
             self.nf, self.nt, self.nk = r.choice([2, 3, 4, 6]), r.choice([1, 2, 4]), r.choice([1, 2, 3])
